@@ -339,7 +339,9 @@ class Consecution(core_events.abc.Compound, typing.Generic[T]):
         ):
             if t1 is None:
                 t1 = t0 + e.duration
-            if t0 >= start and t1 <= end:
+            # An event without duration that sits exactly at 'end' isn't
+            # part of the range [start, end) and therefore has to survive.
+            if t0 >= start and t1 <= end and t0 < end:
                 event_to_delete_list.append(i)
             # Shorten event which are partly active within the
             # cut_off - range
@@ -603,14 +605,14 @@ class Consecution(core_events.abc.Compound, typing.Generic[T]):
         # we therefore have to define the bigger-equal
         # relationship.
         abstf_tuple, durf = self._abstf_tuple_and_dur
-        if start_in_floats >= durf:
-            self.append(event_to_squash_in)
-            return self
         try:
             insert_index = abstf_tuple.index(start)
         # There is an event on the given point which need to be
         # split.
         except ValueError:
+            if start_in_floats >= durf:
+                self.append(event_to_squash_in)
+                return self
             active_event_index = Consecution._get_index_at_from_absolute_time_tuple(
                 start_in_floats,
                 abstf_tuple,
